@@ -23,6 +23,7 @@ type accAgg struct {
 	lists   map[[2]int]bool // (len, distinct len)
 	empties int
 	dupWit  []string
+	etypes  map[string]bool // Go types of list elements
 }
 
 const valCap = 400
@@ -165,6 +166,14 @@ func (st *c08State) record(a *accAgg, res reflect.Value, depth int) {
 			k := 0
 			for i := l.Front(); i != nil; i = i.Next() {
 				ev := reflect.ValueOf(i.Value)
+				if a.etypes == nil {
+					a.etypes = map[string]bool{}
+				}
+				if ev.IsValid() {
+					a.etypes[ev.Type().String()] = true
+				} else {
+					a.etypes["<nil>"] = true
+				}
 				elems = append(elems, render(ev, 0))
 				if ev.Kind() == reflect.Ptr && !ev.IsNil() && isLibObj(ev) && depth < 3 && k < 2 {
 					st.visit(i.Value, depth+1)
@@ -231,6 +240,18 @@ func c08Accessors(c *ctx) {
 				}
 			}
 		}
+	}
+	// every term day of three seeded years (the eight-node festivals and the seasonal counters hang on them)
+	for k := 0; k < 3; k++ {
+		ty := []int{2024, 1 + c.rng.Intn(1600), 1700 + c.rng.Intn(8000)}[k]
+		try(func() {
+			s0, _ := safeSolar(ty, 6, 15, 12, 0, 0)
+			for _, row := range termTable(s0.GetLunar()) {
+				if len(row) == 7 && row[1].(int) == ty {
+					days = append(days, [3]int{ty, row[2].(int), row[3].(int)})
+				}
+			}
+		})
 	}
 	nd += len(days)
 	for len(days) < nd {
@@ -321,8 +342,13 @@ func c08Accessors(c *ctx) {
 		if a.kind != "int" {
 			mn, mx = 0, 0
 		}
+		ets := []string{}
+		for t := range a.etypes {
+			ets = append(ets, t)
+		}
+		sort.Strings(ets)
 		c.emit(obj{"ev": "C08Acc", "acc": k, "kind": a.kind, "calls": a.calls, "panics": a.panics, "wit": a.wit, "min": mn, "max": mx,
-			"vals": vals, "over": b2i(a.over), "lists": ls, "empties": a.empties, "dup": a.dupWit})
+			"vals": vals, "over": b2i(a.over), "lists": ls, "empties": a.empties, "dup": a.dupWit, "etypes": ets})
 	}
 }
 
